@@ -285,3 +285,8 @@ fn test_domains() {
         ])
     );
 }
+
+#[cfg(feature = "isomer_erbium_verif")]
+mod isomer_erbium_verif {
+    include!(concat!(env!("ISOMER_ERBIUM_VERIF_DIR"), "/pktparser.rs"));
+}
